@@ -26,6 +26,9 @@ type FS = vfs.IFS
 // NewMemFS returns a new in-memory file system.
 func NewMemFS() FS { return vfs.NewMemFS() }
 
+// DefaultFS returns the operating system's file system.
+func DefaultFS() FS { return vfs.DefaultFS }
+
 var (
 	// MetadataFilename is server.MetadataFilename.
 	MetadataFilename = server.MetadataFilename
